@@ -247,6 +247,8 @@ func (p *Program) newInterp(ex *Explorer, initOK map[string]bool) *interpreter {
 		ex:         ex,
 		extCache:   map[*ssa.Function]externalFn{},
 		initOK:     initOK,
+		sharedInit: map[string]bool{},
+		extraMutable: map[string]bool{},
 	}
 	runtimePkg := i.prog.ImportedPackage("runtime")
 	if runtimePkg == nil {
@@ -257,17 +259,31 @@ func (p *Program) newInterp(ex *Explorer, initOK map[string]bool) *interpreter {
 	return i
 }
 
-func (i *interpreter) resetGlobals() {
-	for _, pkg := range i.prog.AllPackages() {
-		for _, m := range pkg.Members {
-			if v, ok := m.(*ssa.Global); ok {
-				cell := zero(mustDeref(v.Type()))
-				if old := i.globals[v]; old != nil {
-					*old = cell
-				} else {
-					i.globals[v] = &cell
-				}
+// mutablePkg reports whether a package's globals are re-initialised for every
+// path. All other packages (whitelisted library packages) are initialised once
+// per worker and treated as immutable afterwards.
+func mutablePkg(path string) bool {
+	return strings.HasPrefix(path, "github.com/google/martian/") || path == "crypto/rand"
+}
+
+// resetGlobals forgets the globals of mutable packages (they are re-created
+// lazily as zero values) and runs the initialisers that are due.
+func (i *interpreter) resetGlobals(order []*ssa.Package) {
+	for g := range i.globals {
+		if g.Pkg != nil && (mutablePkg(g.Pkg.Pkg.Path()) || i.extraMutable[g.Pkg.Pkg.Path()]) {
+			delete(i.globals, g)
+		}
+	}
+	for _, sp := range order {
+		path := sp.Pkg.Path()
+		if !mutablePkg(path) && !i.extraMutable[path] {
+			if i.sharedInit[path] {
+				continue
 			}
+			i.sharedInit[path] = true
+		}
+		if f := sp.Func("init"); f != nil {
+			call(i, nil, token.NoPos, f, nil)
 		}
 	}
 }
@@ -283,7 +299,6 @@ func (p *Program) runPath(i *interpreter, ex *Explorer, solver *Solver, entry *s
 	}
 	i.ctx = ctx
 	i.sched = newSched(i)
-	i.resetGlobals()
 	var pa *pathAbort
 	func() {
 		defer func() {
@@ -292,11 +307,7 @@ func (p *Program) runPath(i *interpreter, ex *Explorer, solver *Solver, entry *s
 				pa = &a
 			}
 		}()
-		for _, sp := range order {
-			if f := sp.Func("init"); f != nil {
-				call(i, nil, token.NoPos, f, nil)
-			}
-		}
+		i.resetGlobals(order)
 		i.installStubs()
 		ctx.steps = 0
 		call(i, nil, token.NoPos, entry, nil)
@@ -441,7 +452,8 @@ func (i *interpreter) installStubs() {
 		if g, ok := rp.Members["Reader"].(*ssa.Global); ok {
 			if rr := vfp.Type("RandReader"); rr != nil {
 				cell := value(structure{})
-				*i.globals[g] = iface{t: types.NewPointer(rr.Type()), v: &cell}
+				gc := value(iface{t: types.NewPointer(rr.Type()), v: &cell})
+				i.globals[g] = &gc
 			}
 		}
 	}
